@@ -859,6 +859,17 @@ func solveOb(ob *Obligation, o SolveOpts) {
 			r = rs
 		}
 	}
+	if !ob.Cover && r.status == "timeout" && !o.AllSolvers && !o.Single {
+		// ran out of time (a loaded machine makes the 10 s of the quick tier short): one more attempt
+		// with three times the limit before the obligation is reported as undecided
+		o3 := o
+		o3.TimeoutMs = o.TimeoutMs * 3
+		if r3 := solveText(text, obFile(o.Dir, ob), o3); r3.status == "sat" || r3.status == "unsat" {
+			r = r3
+		} else if rs, ok := solveByCases(ob, text, o3); ok {
+			r = rs
+		}
+	}
 	ob.Status, ob.Solver, ob.Seconds, ob.Raw = r.status, r.solver, r.secs, r.out
 	if ob.Cover {
 		// cover obligations want SAT
